@@ -9,6 +9,7 @@
 //	prs_bl      baseline.Decode                bl_decode     (PrsBaseline.v)
 //	prs_j2k     jpeg2000.Decoder.Decode        k_main_header (PrsJ2k.v)
 //	prs_declared  SniffAny (sniff.go)          declared_S    (PrsOutcome.v)
+//	prs_rle     codec[RLE].Decode, any FrameInfo rle_frame_prefix (PrsRle.v): model err => Go err, never a panic
 //
 // Observable (outcome class, and the parsed header fields when both sides deliver them):
 //   - model `panic`  <=> Go panics at a site inside the modelled header functions
@@ -284,5 +285,62 @@ func runCorr(c *Ctx, seeds []*Seed) {
 		_ = s
 		c.CorrEq("prs_declared", "prs_declared", c.M.Call("prs_declared", hx), fmt.Sprint(sat), map[string]interface{}{"hex": hx})
 	})
-	c.R.Note("correspondence: %d header cases over %d modelled decoders", len(jobs), len(corrTargets))
+	// RLE with arbitrary frame descriptions: everything up to the output allocation
+	var rleSeeds []*Seed
+	for _, s := range seeds {
+		if s.Fam == famRLE {
+			rleSeeds = append(rleSeeds, s)
+		}
+	}
+	nr := c.N(1500, 20000)
+	rcases := make([]Case, 0, nr)
+	for k := 0; k < nr; k++ {
+		var data []byte
+		var f FI
+		switch {
+		case len(rleSeeds) > 0 && k%3 == 0: // valid stream with its own description
+			s := rleSeeds[rng.Intn(len(rleSeeds))]
+			data, f = s.Data, s.FI
+		case len(rleSeeds) > 0 && k%3 == 1:
+			s := rleSeeds[rng.Intn(len(rleSeeds))]
+			data, f = havoc(s.Data, rng, 64).data, arbitraryFI(rng, k)
+		default:
+			data = make([]byte, rng.Pick(1, 63, 64, 65, 100))
+			for i := range data {
+				data[i] = byte(rng.Pick(0, 1, 2, 3, 64, rng.Intn(256)))
+			}
+			f = arbitraryFI(rng, k)
+		}
+		f.Frames, f.NilParams, f.Nil = 1, false, false
+		ff := f
+		rcases = append(rcases, Case{Entry: "codec[RLE].Decode", Data: data, FI: &ff, Seed: "corr", Mut: "rle-frameinfo", Fam: famRLE})
+	}
+	rres := RunCases(runCfg{Workers: c.Work, Timeout: watchdog, ASLimit: asLimit}, rcases)
+	ParallelFor(len(rcases), c.Work, func(i int) {
+		cs := &rcases[i]
+		if rres[i].Status == "timeout" {
+			return
+		}
+		model := c.M.Call("prs_rle", fmt.Sprint(cs.FI.W), fmt.Sprint(cs.FI.H), fmt.Sprint(cs.FI.BA), fmt.Sprint(cs.FI.SPP), hexs(cs.Data))
+		var maxAlloc int64
+		if k := strings.Index(model, " a="); k >= 0 {
+			fmt.Sscanf(model[k+3:], "%d", &maxAlloc)
+			model = model[:k]
+		}
+		impl := rres[i].Status
+		if impl == "crash" {
+			impl = "panic"
+			if cl, _, _, _ := rres[i].panicParts(); cl == "out-of-memory" && maxAlloc >= 1<<30 {
+				impl = "oom-as-modelled"
+			}
+		}
+		m, im := model, impl
+		switch {
+		case model == "ok:" && (impl == "ok" || impl == "err" || impl == "oom-as-modelled"):
+			m, im = "reached-segments", "reached-segments" // later errors come from the segment decoder (coq/RLE)
+		}
+		c.R.Case(fmt.Sprintf("corr|prs_rle|%x|%s", h64(cs.Data), cs.FI.String()), true, "corr.prs_rle."+m)
+		c.CorrEq("prs_rle", "prs_rle:"+m, m, im, map[string]interface{}{"entry": cs.Entry, "hex": hexs(cs.Data), "fi": cs.FI.String(), "go_detail": clipStr(rres[i].Detail, 200), "model_raw": model})
+	})
+	c.R.Note("correspondence: %d header cases over %d modelled decoders, %d RLE frame-description cases", len(jobs), len(corrTargets), len(rcases))
 }
